@@ -149,6 +149,12 @@ def do_ops(store, ref, prefix, L, form, info, own=None, ids=None,
             except Exception as e:
                 api.prove(not live, 'get-raised-for-live-message',
                           exc=type(e).__name__, **sinfo)
+                # QueueStorage.get: ":raises: KeyError, QueueError" - the
+                # queue catches nothing else
+                from slimta.queue import QueueError
+                api.prove(isinstance(e, (KeyError, QueueError)),
+                          'get-of-absent-message-wrong-exception',
+                          exc=type(e).__name__, **sinfo)
                 continue
             if not api.prove(live, 'get-returned-removed-message', **sinfo):
                 continue
